@@ -158,6 +158,9 @@ def compare(o, res):
 
 
 def run(ctx):
+    C.source_tie(ctx, 'C01', [
+        dict(file='taurex/model/transmission.py', cls='TransmissionModel', method='compute_absorption', coq='gen_depth',
+             params=['tau', 'self.altitudeProfile', 'self._planet.fullRadius', 'self._star.radius', 'dz'], results=None)])
     rng = ctx.rng
     N = ctx.n(70, 600)
     obs, exprs, specs = [], [], []
